@@ -177,11 +177,11 @@ class XtensaArch(Architecture):
         arg_types = [a[0] for a in args]
         arg_locs = self.determine_arg_locations(arg_types)
 
-        arg_regs = {
+        arg_regs = [
             arg_loc
             for arg_loc in arg_locs
             if isinstance(arg_loc, registers.AddressRegister)
-        }
+        ]
         yield RegisterUseDef(defs=arg_regs)
 
         for arg_loc, arg2 in zip(arg_locs, args):
